@@ -131,6 +131,38 @@ class Hist:
         return None
 
 
+class Alt:
+    """One of several conjunctions holds (the value of a predicate helper that returns through more than one path:
+    `slot unused OR slot expired`).  Kept as one fact inside a disjunct and expanded into separate disjuncts when a
+    rule asks what holds at a point (Analysis.before)."""
+    __slots__ = ("alts", "key", "vars", "paths", "_h")
+    kind = "alt"
+
+    def __init__(self, alts):
+        self.alts = tuple(sorted((frozenset(a) for a in alts), key=lambda a: sorted(map(repr, a))))
+        self.key = ("alt",) + tuple(tuple(sorted((f.key for f in a), key=repr)) for a in self.alts)
+        self.vars = set()
+        self.paths = []
+        for a in self.alts:
+            for f in a:
+                self.vars |= f.vars
+                self.paths.extend(f.paths)
+        self._h = hash(self.key)
+
+    def __hash__(self):
+        return self._h
+
+    def __eq__(self, o):
+        return isinstance(o, Alt) and self.key == o.key
+
+    def __repr__(self):
+        return "[" + " | ".join(" & ".join(sorted(map(repr, a))) for a in self.alts) + "]"
+
+    def negkey(self):
+        return ("noalt",)
+
+
+
 # ------------------------------------------------------------ constant reasoning
 
 def const_implies(hop, hc, wop, wc):
@@ -463,6 +495,8 @@ def subst(e, mapping, bykey=None):
 
 
 def subst_fact(f, mapping, bykey=None):
+    if f.kind == "alt":
+        return Alt([[subst_fact(g, mapping, bykey) for g in a] for a in f.alts])
     if f.kind == "imp":
         return Imp(subst(f.term, mapping, bykey), f.relop, f.c, subst_fact(f.fact, mapping, bykey))
     return Fact(f.op, subst(f.l, mapping, bykey), subst(f.r, mapping, bykey))
@@ -537,6 +571,21 @@ def truth_in(d, e):
         if fs and all(d_holds(d, g.op, g.l, g.r) for g in fs):
             return pol
     return None
+
+
+def expand_alts(d, cap=8):
+    """Disjunct d with its Alt facts replaced by each of their alternatives (cartesian, capped: beyond the cap the
+    remaining Alt facts are simply dropped, which only loses knowledge)."""
+    alts = [f for f in d if f.kind == "alt"]
+    if not alts:
+        return [d]
+    base = frozenset(f for f in d if f.kind != "alt")
+    outs = [base]
+    for a in alts:
+        if len(outs) * len(a.alts) > cap:
+            break
+        outs = [frozenset(o | alt) for o in outs for alt in a.alts]
+    return outs
 
 
 # ----------------------------------------------------------------- condition → facts
@@ -696,7 +745,7 @@ def collapse(ds):
         if f.kind == "imp":
             if all(f in d for d in ds):
                 keep.add(f)
-        elif f.kind == "hist":
+        elif f.kind in ("hist", "alt"):
             if all(f in d for d in ds):
                 keep.add(f)
         elif all((f in d) or d_holds(d, f.op, f.key[0], f.key[2]) for d in ds):
@@ -1041,7 +1090,8 @@ class Analysis:
         for d in self.IN[bid]:
             for e in b.elems[:ei]:
                 d = self.transfer(e, d)
-            out.add(d)
+            for dd in expand_alts(d):
+                out.add(dd)
         return out
 
     def before_node(self, node_id):
@@ -1254,7 +1304,16 @@ class Engine:
         inter = contribs[0]
         for o in contribs[1:]:
             inter = inter & o
-        return frozenset(inter)
+        out = set(inter)
+        rests = []
+        for o in contribs:
+            r = frozenset(g for g in (o - inter) if g.kind == "cmp")
+            if r not in rests:
+                rests.append(r)
+        if 2 <= len(rests) <= 3 and all(rests) and all(len(r) <= 3 for r in rests):
+            # a predicate that answers yes for more than one reason (`unused OR expired`): keep the reasons
+            out.add(Alt(rests))
+        return frozenset(out)
 
     def call_post(self, caller, call):
         """Facts that hold after the call whatever it returns (they hold at
